@@ -112,6 +112,22 @@ def typedef_reads():
         'Definition typedef_reads_py : list (string * string * string) :=\n  %s.\n' % clist(out)
 
 
+def set_attrs():
+    """names of marshalling attributes whose declared type is a set (iteration order depends on the hash seed)"""
+    import ast, glob, pydjinni
+    root = os.path.dirname(pydjinni.__file__)
+    names = set()
+    for f in sorted(glob.glob(os.path.join(root, '**', '*.py'), recursive=True)):
+        tree = ast.parse(open(f).read())
+        for n in ast.walk(tree):
+            if isinstance(n, (ast.FunctionDef, ast.AnnAssign)):
+                ann = n.returns if isinstance(n, ast.FunctionDef) else n.annotation
+                if ann is not None and ast.unparse(ann).replace(' ', '').startswith('set['):
+                    names.add(n.name if isinstance(n, ast.FunctionDef) else (n.target.id if isinstance(n.target, ast.Name) else ast.unparse(n.target)))
+    return HEADER + '(* attributes / functions annotated as returning a set, anywhere in pydjinni *)\n' \
+        'Definition set_attrs : list string := %s.\n' % cstrs(sorted(names))
+
+
 def main(outdir):
     os.makedirs(outdir, exist_ok=True)
     from pydjinni import API
@@ -121,6 +137,7 @@ def main(outdir):
     write_if_changed(os.path.join(outdir, 'Builtins.v'), builtins(api))
     write_if_changed(os.path.join(outdir, 'ExternalTypes.v'), external_attrs(api))
     write_if_changed(os.path.join(outdir, 'TypeDefReads.v'), typedef_reads())
+    write_if_changed(os.path.join(outdir, 'SetAttrs.v'), set_attrs())
     print('tables ok')
 
 
@@ -129,7 +146,7 @@ if __name__ == '__main__':
         main(sys.argv[1])
     except Exception:
         # fail closed: remove outputs so everything that depends on them stops building
-        for f in ('TargetTable.v', 'ReturnCodes.v', 'Builtins.v', 'ExternalTypes.v', 'TypeDefReads.v'):
+        for f in ('TargetTable.v', 'ReturnCodes.v', 'Builtins.v', 'ExternalTypes.v', 'TypeDefReads.v', 'SetAttrs.v'):
             p = os.path.join(sys.argv[1], f)
             if os.path.exists(p):
                 os.unlink(p)
